@@ -508,3 +508,159 @@ theorem ip4OptsOK_eol (m : Nat) (rest : Bytes) : ip4OptsOK m (byte 0 :: rest) = 
   | succ m => simp [ip4OptsOK, byte_toNat]
 
 end TRV.Proofs
+
+/-! ## TCP options: direct replies with any option bytes the TCP decoder accepts -/
+
+namespace TRV.Proofs
+open TRV TRV.Wire TRV.Build TRV.Drv
+
+/-- a TCP header of `doff` 32-bit words: the 20 fixed bytes followed by the option bytes `topts` -/
+def rawTcpO (doff sp dp seq ack fl win ck urg : Nat) (topts : Bytes) : Bytes :=
+  be16 sp ++ be16 dp ++ be32 seq ++ be32 ack ++ [byte (doff * 16), byte fl] ++ be16 win ++ be16 ck ++ be16 urg ++ topts
+
+theorem rawTcpO_length (doff sp dp seq ack fl win ck urg : Nat) (topts : Bytes) :
+    (rawTcpO doff sp dp seq ack fl win ck urg topts).length = 20 + topts.length := by
+  simp [rawTcpO, be16, be32]; omega
+
+/-- gopacket's TCP decoder on such a header (any option bytes its option loop accepts) followed by any payload -/
+theorem tcp_rawTcpO {doff sp dp seq ack fl win ck urg : Nat} {topts pl : Bytes} {parsed : List (Nat × Bytes)}
+    (d5 : 5 ≤ doff) (d15 : doff ≤ 15) (hol : topts.length = doff * 4 - 20)
+    (hok : tcpOpts (doff * 4 - 20) topts = some parsed)
+    (h1 : sp < 65536) (h2 : dp < 65536) (h3 : seq < 4294967296) (h4 : ack < 4294967296) (h5 : fl < 256) :
+    tcp (rawTcpO doff sp dp seq ack fl win ck urg topts ++ pl) =
+      some { sport := sp, dport := dp, seq := seq, ack := ack, flags := fl, opts := parsed, payload := pl } := by
+  have hL := rawTcpO_length doff sp dp seq ack fl win ck urg topts
+  generalize hH : rawTcpO doff sp dp seq ack fl win ck urg topts = H at hL
+  have e0 : u16 (H ++ pl) 0 = some sp := by
+    subst hH; simp [rawTcpO, be16, be32, u16, u8]
+    rw [byte_toNat (by omega), byte_toNat (by omega)]; omega
+  have e2 : u16 (H ++ pl) 2 = some dp := by
+    subst hH; simp [rawTcpO, be16, be32, u16, u8]
+    rw [byte_toNat (by omega), byte_toNat (by omega)]; omega
+  have e4 : u32 (H ++ pl) 4 = some seq := by
+    subst hH; simp [rawTcpO, be16, be32, u32, u16, u8]
+    rw [byte_toNat (by omega), byte_toNat (by omega), byte_toNat (by omega), byte_toNat (by omega)]; omega
+  have e8 : u32 (H ++ pl) 8 = some ack := by
+    subst hH; simp [rawTcpO, be16, be32, u32, u16, u8]
+    rw [byte_toNat (by omega), byte_toNat (by omega), byte_toNat (by omega), byte_toNat (by omega)]; omega
+  have e12 : u8 (H ++ pl) 12 = some (doff * 16) := by
+    subst hH; simp [rawTcpO, be16, be32, u8]; rw [byte_toNat (by omega)]
+  have e13 : u8 (H ++ pl) 13 = some fl := by
+    subst hH; simp [rawTcpO, be16, be32, u8, byte_toNat, h5]
+  have hopt : H.drop 20 = topts := by
+    subst hH; simp [rawTcpO, be16, be32]
+  have hHl : H.length = doff * 4 := by omega
+  have hsl : slice (H ++ pl) 20 (doff * 4 - 20) = topts := by
+    unfold slice
+    rw [List.drop_append, hopt]
+    have : 20 - H.length = 0 := by omega
+    rw [this, List.drop_zero, List.take_append, hol]
+    simp
+    exact List.take_of_length_le (by omega)
+  have hd : (H ++ pl).drop (doff * 4) = pl := by
+    rw [← hHl]; simp
+  unfold tcp
+  rw [if_neg (by rw [List.length_append, hL]; omega), e0, e2, e4, e8, e12, e13]
+  simp only [show doff * 16 / 16 = doff by omega]
+  rw [if_neg (by omega), if_neg (by rw [List.length_append, hHl]; omega), hsl, hok, hd]
+
+/-- a TCP segment with TCP options inside an IPv4 packet whose header carries options -/
+def tcpMsg4oo (oihl otos oid ff ottl ock : Nat) (src dst oopts : Bytes) (doff sp dp seq ack fl win ck urg : Nat) (topts pl : Bytes) : Bytes :=
+  rawHdr4o oihl otos (oihl * 4 + (doff * 4 + pl.length)) oid ff ottl 6 ock src dst oopts ++ (rawTcpO doff sp dp seq ack fl win ck urg topts ++ pl)
+
+theorem parse_tcpMsg4oo {oihl otos oid ff ottl ock doff sp dp seq ack fl win ck urg : Nat} {src dst oopts topts pl : Bytes}
+    {parsed : List (Nat × Bytes)}
+    (hs : src.length = 4) (hd : dst.length = 4)
+    (o1 : 5 ≤ oihl) (o2 : oihl ≤ 15) (o3 : oopts.length = oihl * 4 - 20) (o4 : ip4OptsOK (oihl * 4 - 20) oopts = true)
+    (d5 : 5 ≤ doff) (d15 : doff ≤ 15) (hol : topts.length = doff * 4 - 20) (hok : tcpOpts (doff * 4 - 20) topts = some parsed)
+    (h1 : otos < 256) (h2 : oid < 65536) (h3 : ottl < 256) (hff : ff < 65536) (hfr : ff % 16384 = 0)
+    (b1 : sp < 65536) (b2 : dp < 65536) (b3 : seq < 4294967296) (b4 : ack < 4294967296) (b5 : fl < 256)
+    (hsize : oihl * 4 + (doff * 4 + pl.length) ≤ 1024) :
+    parse ((tcpMsg4oo oihl otos oid ff ottl ock src dst oopts doff sp dp seq ack fl win ck urg topts pl).take bufSize) =
+      some (.v4 { ihl := oihl, tos := otos, len := oihl * 4 + (doff * 4 + pl.length), id := oid, ff := ff, ttl := ottl, proto := 6,
+                  src := src, dst := dst, payload := rawTcpO doff sp dp seq ack fl win ck urg topts ++ pl },
+            .tcp { sport := sp, dport := dp, seq := seq, ack := ack, flags := fl, opts := parsed, payload := pl }) := by
+  have hlenpl : (rawTcpO doff sp dp seq ack fl win ck urg topts ++ pl).length = doff * 4 + pl.length := by
+    rw [List.length_append, rawTcpO_length]; omega
+  have hL : (tcpMsg4oo oihl otos oid ff ottl ock src dst oopts doff sp dp seq ack fl win ck urg topts pl).length = oihl * 4 + (doff * 4 + pl.length) := by
+    unfold tcpMsg4oo
+    rw [List.length_append, rawHdr4o_length _ _ _ _ _ _ _ _ _ _ _ hs hd, hlenpl]; omega
+  rw [take_of_le (by rw [hL]; simp [bufSize]; omega)]
+  have hip := ip4_rawHdr4o (ihl := oihl) (tos := otos) (len := oihl * 4 + (doff * 4 + pl.length)) (id := oid) (ff := ff) (ttl := ottl) (proto := 6)
+    (ck := ock) (opts := oopts) (pl := rawTcpO doff sp dp seq ack fl win ck urg topts ++ pl) hs hd o1 o2 o3 o4 h1 (by omega) (by omega) h2 hff h3 (by omega)
+  have htk : (rawTcpO doff sp dp seq ack fl win ck urg topts ++ pl).take (oihl * 4 + (doff * 4 + pl.length) - oihl * 4) = rawTcpO doff sp dp seq ack fl win ck urg topts ++ pl :=
+    take_of_le (by rw [hlenpl]; omega)
+  rw [htk] at hip
+  have hb0 : u8 (tcpMsg4oo oihl otos oid ff ottl ock src dst oopts doff sp dp seq ack fl win ck urg topts pl) 0 = some (0x40 + oihl) := by
+    obtain ⟨r0, r1, r2, r3, rfl⟩ := len4 hs
+    simp [tcpMsg4oo, rawHdr4o, u8]; rw [byte_toNat (by omega)]
+  unfold parse
+  rw [hb0]
+  simp only [show (0x40 + oihl) / 16 = 4 by omega, if_true]
+  unfold tcpMsg4oo
+  rw [hip]
+  have hne : (rawTcpO doff sp dp seq ack fl win ck urg topts ++ pl).isEmpty = false := by simp [rawTcpO, be16, be32]
+  simp only [hne, IP4.isFrag, hfr, Bool.false_eq_true, if_false, if_true, tcp_rawTcpO d5 d15 hol hok b1 b2 b3 b4 b5, Option.map_some]
+  simp
+
+/-- TCP SYN direct forms with ANY accepted TCP options (MSS, SACK-permitted, timestamps, window scale …)
+    and any accepted IP options -/
+theorem tcp_direct_complete_allopts {s : TcpSt} {last : Sent}
+    {oihl otos oid ff ottl ock doff seq ack fl win ck urg : Nat} {oopts topts pl : Bytes} {parsed : List (Nat × Bytes)}
+    (hl : s.cfg.localA.length = 4) (htg : s.cfg.target.length = 4)
+    (o1 : 5 ≤ oihl) (o2 : oihl ≤ 15) (o3 : oopts.length = oihl * 4 - 20) (o4 : ip4OptsOK (oihl * 4 - 20) oopts = true)
+    (d5 : 5 ≤ doff) (d15 : doff ≤ 15) (hol : topts.length = doff * 4 - 20) (hok : tcpOpts (doff * 4 - 20) topts = some parsed)
+    (h1 : otos < 256) (h2 : oid < 65536) (h3 : ottl < 256) (hff : ff < 65536) (hfr : ff % 16384 = 0)
+    (b1 : s.cfg.tport < 65536) (b2 : s.cfg.lport < 65536) (b3 : seq < 4294967296) (b4 : ack < 4294967296) (b5 : fl < 256)
+    (hfl : ((fl / 2) % 2 = 1 ∧ (fl / 16) % 2 = 1) ∨ (fl / 4) % 2 = 1)
+    (hlast : s.sent.getLast? = some last)
+    (hack : (fl / 16) % 2 = 1 → last.seq = (ack + 4294967295) % 4294967296)
+    (hsize : oihl * 4 + (doff * 4 + pl.length) ≤ 1024) :
+    tcpRecv s (tcpMsg4oo oihl otos oid ff ottl ock s.cfg.target s.cfg.localA oopts doff s.cfg.tport s.cfg.lport seq ack fl win ck urg topts pl) =
+      .accept last.ttl s.cfg.target true last.time := by
+  have hparse := parse_tcpMsg4oo (oihl := oihl) (otos := otos) (oid := oid) (ff := ff) (ottl := ottl) (ock := ock) (doff := doff)
+    (sp := s.cfg.tport) (dp := s.cfg.lport) (seq := seq) (ack := ack) (fl := fl) (win := win) (ck := ck) (urg := urg)
+    (src := s.cfg.target) (dst := s.cfg.localA) (oopts := oopts) (topts := topts) (pl := pl) htg hl o1 o2 o3 o4 d5 d15 hol hok h1 h2 h3 hff hfr b1 b2 b3 b4 b5 hsize
+  have hne : tcpMsg4oo oihl otos oid ff ottl ock s.cfg.target s.cfg.localA oopts doff s.cfg.tport s.cfg.lport seq ack fl win ck urg topts pl ≠ [] := by
+    simp [tcpMsg4oo, rawHdr4o]
+  unfold tcpRecv
+  simp only [isEmpty_false_of_ne hne, hparse, L3.src, L3.dst, hlast, TCP.syn, TCP.ackf, TCP.rst]
+  by_cases ha : (fl / 16) % 2 = 1
+  · have := hack ha
+    rcases hfl with ⟨hs, _⟩ | hr
+    · by_cases hr : (fl / 4) % 2 = 1 <;> simp [hs, ha, hr, this]
+    · by_cases hs : (fl / 2) % 2 = 1 <;> simp [hs, ha, hr, this]
+  · rcases hfl with ⟨_, ha'⟩ | hr
+    · exact absurd ha' ha
+    · by_cases hs : (fl / 2) % 2 = 1 <;> simp [hs, ha, hr]
+
+end TRV.Proofs
+
+namespace TRV.Proofs
+open TRV TRV.Wire TRV.Build TRV.Drv
+
+/-- SACK direct form with ANY accepted TCP option bytes (several SACK blocks in any order, timestamps,
+    padding …) whose smallest relative left edge is `t`, inside an IP header with any accepted options -/
+theorem sack_direct_complete_allopts {s : SackSt} {t : Nat} {p : Sent}
+    {oihl otos oid ff ottl ock doff seq ack fl win ck urg : Nat} {oopts topts pl : Bytes} {parsed : List (Nat × Bytes)}
+    (hl : s.cfg.localA.length = 4) (htg : s.cfg.target.length = 4)
+    (o1 : 5 ≤ oihl) (o2 : oihl ≤ 15) (o3 : oopts.length = oihl * 4 - 20) (o4 : ip4OptsOK (oihl * 4 - 20) oopts = true)
+    (d5 : 5 ≤ doff) (d15 : doff ≤ 15) (hol : topts.length = doff * 4 - 20) (hok : tcpOpts (doff * 4 - 20) topts = some parsed)
+    (hms : minSack s.cfg.isn parsed = some t)
+    (h1 : otos < 256) (h2 : oid < 65536) (h3 : ottl < 256) (hff : ff < 65536) (hfr : ff % 16384 = 0)
+    (b1 : s.cfg.tport < 65536) (b2 : s.cfg.lport < 65536) (b3 : seq < 4294967296) (b4 : ack < 4294967296) (b5 : fl < 256)
+    (hfl : fl % 2 = 0 ∧ (fl / 2) % 2 = 0 ∧ (fl / 4) % 2 = 0)
+    (hsize : oihl * 4 + (doff * 4 + pl.length) ≤ 1024) (hlk : sackLookup s t = some p) :
+    sackRecv s (tcpMsg4oo oihl otos oid ff ottl ock s.cfg.target s.cfg.localA oopts doff s.cfg.tport s.cfg.lport seq ack fl win ck urg topts pl) =
+      .accept t s.cfg.target true p.time := by
+  have hparse := parse_tcpMsg4oo (oihl := oihl) (otos := otos) (oid := oid) (ff := ff) (ottl := ottl) (ock := ock) (doff := doff)
+    (sp := s.cfg.tport) (dp := s.cfg.lport) (seq := seq) (ack := ack) (fl := fl) (win := win) (ck := ck) (urg := urg)
+    (src := s.cfg.target) (dst := s.cfg.localA) (oopts := oopts) (topts := topts) (pl := pl) htg hl o1 o2 o3 o4 d5 d15 hol hok h1 h2 h3 hff hfr b1 b2 b3 b4 b5 hsize
+  have hne : tcpMsg4oo oihl otos oid ff ottl ock s.cfg.target s.cfg.localA oopts doff s.cfg.tport s.cfg.lport seq ack fl win ck urg topts pl ≠ [] := by
+    simp [tcpMsg4oo, rawHdr4o]
+  unfold sackRecv
+  rw [if_neg (by simpa using isEmpty_false_of_ne hne), hparse]
+  simp only [L3.src, L3.dst, TCP.syn, TCP.fin, TCP.rst]
+  simp [hfl.1, hfl.2.1, hfl.2.2, hms, hlk]
+
+end TRV.Proofs
